@@ -135,7 +135,11 @@ func genRecord(o *Out, seqlen int, nfeat int) seqio.GenBank {
 		f.Version = rstr(r, alWord+".", 1, 14)
 	}
 	for i, n := 0, r.Intn(4); i < n; i++ {
-		f.DBLink.Set(rstr(r, alWord, 1, 10)+itoa(i), rstr(r, alWord+" ", 0, 20))
+		al := alWord + " "
+		if r.Intn(3) == 0 {
+			al = alWord + " : :"
+		}
+		f.DBLink.Set(rstr(r, alWord, 1, 10)+itoa(i), rstr(r, al, 0, 20))
 	}
 	for i, n := 0, r.Intn(8); i < n; i++ {
 		f.Keywords = append(f.Keywords, strings.TrimSpace("k"+rstr(r, alWord+"  ", 0, 24)))
@@ -236,7 +240,7 @@ func apiLoc(l gts.Location) gts.Location {
 func edgeRecord(o *Out, gb *seqio.GenBank, i int) string {
 	r := o.Rng
 	f := &gb.Fields
-	switch i % 18 {
+	switch i % 19 {
 	case 0:
 		f.Source.Species = "S" + rstr(r, alWord, 20, 30) + " " + rstr(r, alWord, 20, 30) + " " + rstr(r, alWord, 20, 40)
 		return "long-species"
@@ -306,6 +310,12 @@ func edgeRecord(o *Out, gb *seqio.GenBank, i int) string {
 		gb.Table[0].Props.Add("note", "ends with a backslash\\")
 		gb.Table[0].Props.Add("gene", "after")
 		return "value-backslash-last"
+	case 17:
+		// the name of a cross reference ends at the first colon; the value is the
+		// rest of the line, colons and all
+		f.DBLink.Set("Archive"+itoa(i), "SRR000001, run: first: lane 2")
+		f.DBLink.Set("Other"+itoa(i), "a:b : c")
+		return "dblink-value-with-colons"
 	default:
 		f.DBLink.Set("Empty"+itoa(i), "")
 		return "dblink-empty-value"
